@@ -48,6 +48,19 @@ def run(res, prop, extra_lines=None, extra_oracle=None, n_quick=150, n_thorough=
     if extra:
         cov["extra"] = {k: v for k, v in extra.items() if k != "violations"}
         cov["evaluations"] += extra.get("evaluations", 0)
+    # recorded findings (KNOWN_FINDINGS): reported as such, never as violations; anything else is a violation
+    kn, _ = common.known_findings()
+    listed = {k["cls"]: k["what"] for k in kn}     # a recorded behaviour is the same finding whichever property's histories meet it
+    unlisted = []
+    for f in fails:
+        cls = f.get("known_class")
+        if cls and cls in listed:
+            res.known(cls, listed[cls][:400])
+        else:
+            unlisted.append(f)
+    cov["known_finding_hits"] = len(fails) - len(unlisted)
+    fails = unlisted
+    cov["oracle_failures"] = len(fails)
     res.coverage = cov
     res.assumptions = serial.SERIAL_ASSUMPTIONS
     if fails:
